@@ -92,6 +92,13 @@ def _log(v):
     return v.log() if hasattr(v, 'log') and not isinstance(v, (float, np.floating)) else math.log(v)
 
 
+def _branch_timeout(w, ms):
+    """Shorter time limit for the branch-feasibility queries of this path (an `unknown` counts as feasible both ways, which is
+    sound; nonlinear conditions over uninterpreted H/S values otherwise sit out the default 2 s each)."""
+    if w.symbolic:
+        w.c.solver.set('timeout', ms)
+
+
 def _iff(w, a, b):
     return w.And(w.Implies(a, b), w.Implies(b, a))
 
@@ -269,11 +276,18 @@ def multistream(w, name, th, dist, keys, T=None, P=None):
     """
     s = tmo.MultiStream(None, phases=('g', 'l'), thermo=th)
     present = {'default': 'zero'}
+    concrete = {}
     for k in keys:
         pat = dist.get(k, '00')
         for ph, c in zip('gl', pat):
+            if c in '123456789':       # a concrete amount (cheap configurations of the quick tier)
+                concrete[ph, chem(k).ID] = float(c)
+                continue
             present[ph, chem(k).ID] = {'0': 'zero', '+': 'pos', '?': 'maybe'}[c]
     leaves = W.plant_flows(w, s, name, present=present)
+    for (ph, ID), v in concrete.items():
+        s.imol[ph, ID] = v
+        leaves[ph, ID] = v
     if T is not None: s.T = T
     if P is not None: s.P = P
     return s, leaves
@@ -732,6 +746,7 @@ def K_posing(w, cfg):
 def corr_configs(tier):
     fam = [
         ('W', {'W': '++'}, 0, 'interior'),
+        ('WE', {'W': '03', 'E': '50'}, 0, 'interior'),
         ('WE', {'W': '0+', 'E': '+0'}, 0, 'interior'),
         ('WE', {'W': '0+', 'E': '+0'}, 1, 'interior'),
         ('WEN', {'W': '0+', 'E': '0+', 'N': '+0'}, 0, 'interior'),
@@ -754,6 +769,7 @@ def corr_body(var):
         """
         from thermosteam.mixture import ideal_mixture_model as imm
         W.reset_caches()
+        _branch_timeout(w, 400)
         env = Env(w, cfg)
         keys = cfg['pkg']
         try:
@@ -801,3 +817,186 @@ group('C04/PS_correction', configs=corr_configs, l0=True,
       functions=[_VLE + f for f in ('__call__', 'set_PS', '_set_PS_chemical', '_S_hat_err_at_T', '_setup')] + ['thermosteam.mixture.mixture:Mixture.xS'],
       assumptions=_A_CORR + ['A-linear-S: in the correction step the entropy model is linear in the flows (the entropy of mixing of the real '
                              'IdealEntropyModel is covered by the bounded group C04/B_HS only)'])(corr_body('S'))
+
+
+# =========================================================================== S (relational): scaling the feed scales the products
+
+class Tape:
+    """Solver calls of the first run (name, intensive inputs, outputs); the second run must make the same calls with equal
+    inputs and is handed the same outputs (a deterministic function gives equal results on equal arguments)."""
+
+    def __init__(self):
+        self.items = []
+        self.pos = 0
+        self.replaying = False
+        self.mismatch = []
+        self.conds = []
+
+
+def _numeric(xs):
+    out = []
+    for a in xs:
+        if a is None or callable(a) or isinstance(a, (int, str, bool)) and not isinstance(a, float):
+            continue
+        if isinstance(a, (tuple, list, np.ndarray)):
+            out.extend(_numeric(list(a)))
+        else:
+            out.append(a)
+    return out
+
+
+def install_scaling_stubs(env, tape):
+    """
+    Assumed contracts, as deterministic functions of their (intensive) arguments:
+      bubble / dew point solvers (composition, T or P) -> (P or T, composition); Psat_i(T); the fixed-point driver flx.aitken
+      (pcf*Psat/P, T, P, z, z_light, z_heavy, initial x and V) -> (x, V, ln K) with x, K > 0 and 0 <= V <= 1; the initial K
+      guess of _refresh_K (V); flx.IQ_interpolation (bracket, tolerances) -> root, evaluating its callback k times.
+    """
+    w = env.w
+
+    def rec(name, inputs, make):
+        inputs = _numeric(inputs)
+        if not tape.replaying:
+            out = make()
+            tape.items.append((name, inputs, out))
+            return out
+        if tape.pos >= len(tape.items) or tape.items[tape.pos][0] != name or len(tape.items[tape.pos][1]) != len(inputs):
+            tape.mismatch.append(name)
+            return make()
+        nm, inp, out = tape.items[tape.pos]
+        tape.pos += 1
+        tape.conds.append((name, w.all_eq(inputs, inp)))
+        return out
+
+    class _Gamma:
+        f = None
+        args = ()
+
+    class StubPoint:
+        def __init__(self, chemicals=(), thermo=None):
+            self.chemicals = tuple(chemicals)
+            self.IDs = tuple(c.ID for c in self.chemicals)
+            n = self.n = len(self.chemicals)
+            self.Psats = [(lambda T, i=i: rec(f'Psat{i}', [T], lambda: env.pos('Psat'))) for i in range(n)]
+            self.pcf = lambda T, P, Psats: 1.0
+            self.gamma = _Gamma()
+            self.phi = None
+            self.Tmin, self.Tmax, self.Pmin, self.Pmax = rec('point', [], lambda: [env.pos('Tmin'), env.pos('Tmax'), env.pos('Pmin'), env.pos('Pmax')])
+
+        def _solve(self, name, z, X, tag):
+            out = rec(name, list(z) + [X], lambda: [env.pos(tag)] + list(env.simplex(tag + '.c', self.n)))
+            return out[0], env.arr(out[1:])
+
+    class StubBubblePoint(StubPoint):
+        def solve_Py(self, z, T, liquid_conversion=None): return self._solve('solve_Py', z, T, 'P_bubble')
+        def solve_Ty(self, z, P, liquid_conversion=None): return self._solve('solve_Ty', z, P, 'T_bubble')
+
+    class StubDewPoint(StubPoint):
+        def solve_Px(self, z, T, gas_conversion=None): return self._solve('solve_Px', z, T, 'P_dew')
+        def solve_Tx(self, z, P, gas_conversion=None): return self._solve('solve_Tx', z, P, 'T_dew')
+
+    class StubFlx:
+        @staticmethod
+        def aitken(f, x0, xtol=None, args=(), **kw):
+            n = (len(x0) - 1) // 2
+            inputs = list(x0[:n + 1]) + list(args)
+
+            def make():
+                return [env.pos(f'x{i}') for i in range(n)] + [env.unit('V')] + [env.pos(f'K{i}') for i in range(n)]
+            out = rec('aitken', inputs, make)
+            return env.arr(out[:n + 1] + [_log(K) for K in out[n + 1:]])
+
+        @staticmethod
+        def IQ_interpolation(f, x0, x1, y0=None, y1=None, x=None, xtol=0., ytol=5e-8, args=(), **kw):
+            rs = rec('IQ', [x0, x1, y0, y1, xtol, ytol], lambda: [env.pos('iq_x') for _ in range(env.k + 1)])
+            for r in rs[:-1]:
+                f(r, *args)
+            if env.k:
+                return rs[-2]          # the solver returns the last point it evaluated (the flows belong to it)
+            return rs[-1]
+
+        def __getattr__(self, name):
+            raise AssertionError(f'unexpected flexsolve call in vle.py: {name}')
+
+    def refresh_K(self, V, y_bubble, x_dew, dz_bubble=None, dz_dew=None):
+        n = len(self._index)
+        self._V = V
+        lo = 1e-16 if env.cfg.get('kguess', 'floor') == 'floor' else 0.     # 'floor': the guess needs no flooring at 1e-16 (fewer paths)
+        self._K = env.arr(rec('refresh_K', [V], lambda: [env.leaf(f'Kguess{i}', lo=lo, lo_strict=True) for i in range(n)]))
+
+    env.patch(vle_mod, 'BubblePoint', StubBubblePoint)
+    env.patch(vle_mod, 'DewPoint', StubDewPoint)
+    env.patch(vle_mod, 'flx', StubFlx())
+    env.patch(vle_mod.VLE, '_refresh_K', refresh_K)
+
+
+def scaling_configs(tier):
+    fam = [('TP', 'WE', {'W': '0+', 'E': '+0'}, 0, 'floor'), ('TP', 'WEN', {'W': '0+', 'E': '0+', 'N': '+0'}, 0, 'floor'),
+           ('TP', 'WX', {'W': '0+', 'X': '0+'}, 0, 'floor'), ('PV', 'WE', {'W': '0+', 'E': '+0'}, 0, 'floor')]
+    if tier == 'thorough':
+        fam += [('TP', 'WE', {'W': '0+', 'E': '+0'}, 0, 'any'), ('TP', 'WEX', {'W': '0+', 'E': '+0', 'X': '0+'}, 0, 'floor'),
+                ('TP', 'WENX', {'W': '0+', 'E': '+0', 'N': '+0', 'X': '0+'}, 0, 'floor'), ('TP', 'WEM', {'W': '0+', 'E': '+0', 'M': '++'}, 0, 'floor'),
+                ('PV', 'WE', {'W': '0+', 'E': '+0'}, 1, 'floor'), ('TV', 'WE', {'W': '0+', 'E': '+0'}, 1, 'floor'),
+                ('PV', 'WEN', {'W': '0+', 'E': '0+', 'N': '+0'}, 1, 'floor'), ('TV', 'WEX', {'W': '0+', 'E': '+0', 'X': '0+'}, 1, 'floor'),
+                ('TP', 'WE', {'W': '++', 'E': '++'}, 0, 'floor')]
+    return [{'name': f'{spec}/{keys}/{_dist_name(d, keys)}/k={k}/Kguess={g}', 'spec': spec, 'pkg': keys, 'dist': d, 'k': k, 'kguess': g}
+            for spec, keys, d, k, g in fam]
+
+
+@group('C04/scaling', configs=scaling_configs,
+       functions=[_VLE + f for f in ('__call__', '_setup', 'set_thermal_condition', 'set_TV', 'set_PV', '_V_err_at_P', '_V_err_at_T',
+                                     '_solve_v', '_solve_v_fixed_point')] + ['thermosteam.equilibrium.vle:set_flows', 'thermosteam.equilibrium.vle:xy'],
+       assumptions=['A-deterministic: bubble/dew solvers, Psat, the fixed-point driver flx.aitken, the initial K guess and flx.IQ_interpolation '
+                    'are deterministic functions of their intensive arguments (the equality of these arguments in the two runs is itself an obligation)'])
+def scaling(w, cfg):
+    """
+    Two runs of the real flash, feed m and feed k*m (k > 0), same specification.  ensures: every product flow of the second run
+    is k times that of the first, T and P agree, the second run makes the same solver calls with equal intensive arguments.
+    """
+    W.reset_caches()
+    env = Env(w, cfg)
+    keys = cfg['pkg']
+    tape = Tape()
+    try:
+        install_scaling_stubs(env, tape)
+        th = havoc_thermo(env, keys)
+        T0 = w.real('T0', lo=0., lo_strict=True)
+        P0 = w.real('P0', lo=0., lo_strict=True)
+        a, m = multistream(w, 'a', th, cfg['dist'], keys, T=T0, P=P0)
+        kw = spec_kwargs(env, cfg['spec'])
+        if 'V' in kw:
+            w.assume(w.And(w.gt(kw['V'], 0.), w.lt(kw['V'], 1.)))
+        k = w.real('k', lo=0., lo_strict=True)
+        b = tmo.MultiStream(None, phases=('g', 'l'), thermo=th)
+        b.T = T0; b.P = P0
+        IDs = a.chemicals.IDs
+        for (ph, ID), v in m.items():
+            if not (isinstance(v, float) and v == 0.):
+                dict(W.rows_of(b))[ph].dct[IDs.index(ID)] = k * v
+        outcome = []
+        for s in (a, b):
+            try:
+                s.vle(**kw)
+                outcome.append('returns')
+            except NOT_NORMAL as e:
+                outcome.append(type(e).__name__)
+            tape.replaying = True
+        w.ensure('both runs end the same way', outcome[0] == outcome[1])
+        w.ensure('the scaled run makes the same sequence of solver calls', not tape.mismatch and tape.pos == len(tape.items),
+                 mismatch=tape.mismatch, calls=[i[0] for i in tape.items])
+        seen = set()
+        for name, cond in tape.conds:
+            n = sum(1 for s_ in seen if s_.startswith(name + '#'))
+            seen.add(f'{name}#{n}')
+            w.ensure(f'intensive arguments of solver call {name}#{n} are unchanged by scaling', cond)
+        if outcome[0] != 'returns':
+            return
+        fa = flows_now(a); fb = flows_now(b)
+        for key in sorted(fa):
+            w.ensure(f'product flow{list(key)} of the scaled feed = k * product flow of the feed', w.eq(fb[key], k * fa[key]))
+        w.ensure('T and P of the two results agree', w.And(w.eq(a.T, b.T), w.eq(a.P, b.P)))
+        k0 = chem(keys[0]).ID
+        w.canary('canary: scaling the feed leaves the product flows unchanged', w.And(w.eq(fb['g', k0], fa['g', k0]), w.eq(fb['l', k0], fa['l', k0])))
+        w.note(calls=[i[0] for i in tape.items])
+    finally:
+        env.restore()
